@@ -68,7 +68,8 @@ constexpr std::pair<int, int> G_units { OP_new_unit, OP_make_monadic_constraint 
 constexpr std::pair<int, int> G_forms { OP_make_monadic_constraint, OP_new_token };
 constexpr std::pair<int, int> G_attrs { OP_new_token, OP_set_decl_fields };
 constexpr std::pair<int, int> G_setters { OP_set_decl_fields, OP_noise_alloc };
-constexpr std::pair<int, int> G_noise { OP_noise_alloc, OP_COUNT };
+constexpr std::pair<int, int> G_noise { OP_noise_alloc, OP_get_string_huge };
+constexpr std::pair<int, int> G_macros { OP_get_string_huge, OP_COUNT };
 
 struct GraphScenario : Scenario {
    Mode m;
@@ -130,7 +131,18 @@ struct GraphScenario : Scenario {
       const bool long_run = r.chance(1, tier == 0 ? 400 : 1500);
       const size_t n = long_run ? size_t(r.range(1500, tier == 0 ? 4000 : 12000)) : size_t(r.range(m.min_ops, m.max_ops));
       const int range = int(long_run ? r.range(10, 200) : r.range(3, 30));
-      Plan p = gen_world_plan(r, tab, n, range, long_run ? 0 : m.fault_den);
+      std::vector<OpWeight> table = tab;
+      size_t nops = n;
+      if (not long_run and r.chance(1, 3)) {
+         // focused run (swarm style): a handful of opcodes take most of the weight, so that a single farm, deque, vector or
+         // tree is pushed through several growth steps
+         int total = 0;
+         for (auto& w : table) total += w.weight;
+         const int k = int(r.range(2, 5));
+         for (int j = 0; j < k; ++j) table[size_t(r.below(table.size()))].weight += total;
+         nops = size_t(r.range(120, 420));
+      }
+      Plan p = gen_world_plan(r, table, nops, range, long_run ? 0 : m.fault_den);
       p.seed = run_seed;
       p.set("long", long_run);
       return p;
@@ -170,7 +182,7 @@ struct GraphScenario : Scenario {
          const int code = ((op.code % OP_COUNT) + OP_COUNT) % OP_COUNT;
          Ref r = w.apply(op);
          ctx.probe(P_ops);
-         if (code >= OP_noise_alloc) ctx.probe(P_noise);
+         if (code == OP_noise_alloc or code == OP_noise_free) ctx.probe(P_noise);
          if (code >= OP_set_decl_fields and code < OP_noise_alloc and r != nullptr) ctx.probe(P_setters);
          if (ctx.verbose or w.step <= 3000) ctx.event("%s -> %s", describe_op(op).c_str(), ref_str(r).c_str());
          if (w.failed()) return w.verdict;
@@ -225,7 +237,7 @@ GraphScenario c02({
    "The seed-independent prologue calls every opcode three times in 8 variants; per-factory counters are in 'probes' (factory.*). Non-trivial = at least one factory result checked.",
    true, 0, 0, 0, 0, 0, 0, 0, 0, false, 0, true, true, 0, 2500, 250000, 20, 200 },
    weighted({ { G_generic, 3 }, { G_names, 3 }, { G_types, 3 }, { G_exprs, 3 }, { G_dirs, 3 }, { G_stmts, 3 }, { G_decls, 3 }, { G_units, 1 }, { G_forms, 2 }, { G_attrs, 2 },
-              { G_setters, 2 }, { G_noise, 3 } }));
+              { G_setters, 2 }, { G_noise, 3 }, { G_macros, 2 } }));
 
 // ------------------------------------------------------------------------------ C05
 GraphScenario c05({
@@ -237,7 +249,7 @@ GraphScenario c05({
    "(all objects at least every 16 steps and at the end). Non-trivial = at least one object re-observed after a later step.",
    false, 1, 400, 0, 0, 0, 0, 0, 0, false, 0, true, true, 4, 1200, 120000, 30, 220 },
    weighted({ { G_generic, 3 }, { G_names, 4 }, { G_types, 4 }, { G_exprs, 3 }, { G_dirs, 2 }, { G_stmts, 3 }, { G_decls, 5 }, { G_units, 1 }, { G_forms, 2 }, { G_attrs, 2 },
-              { G_setters, 3 }, { G_noise, 4 } }));
+              { G_setters, 3 }, { G_noise, 4 }, { G_macros, 2 } }));
 
 // ------------------------------------------------------------------------------ C07
 GraphScenario c07({
@@ -290,7 +302,7 @@ GraphScenario c14({
    "is always refused; iteration visits exactly size() elements and agrees with positional access. Built with AddressSanitizer and UBSan (-fno-sanitize-recover). Non-trivial = at least one accessor sweep executed.",
    false, 0, 0, 0, 0, 0, 0, 0, 6, true, 0, false, false, 0, 2000, 200000, 20, 150 },
    weighted({ { G_generic, 2 }, { G_names, 2 }, { G_types, 3 }, { G_exprs, 4 }, { G_dirs, 4 }, { G_stmts, 5 }, { G_decls, 5 }, { G_units, 2 }, { G_forms, 3 }, { G_attrs, 3 },
-              { G_setters, 4 }, { G_noise, 2 } }));
+              { G_setters, 4 }, { G_noise, 2 }, { G_macros, 2 } }));
 
 // ------------------------------------------------------------------------------ C15
 GraphScenario c15({
